@@ -345,6 +345,32 @@ func (u *Unit) evalSpecCall(env *SpecEnv, e *SExpr) Value {
 		bv := boundVar(name + "?" + fmt.Sprint(u.nextBound()))
 		body := u.evalSpecBool(env.with(name, intV(bv)), e.Args[1])
 		return boolV(Forall([]*Term{bv}, body))
+	case "forallS":
+		// forallS(x, T, body): x ranges over all values of element type T
+		name := e.Args[0].Name
+		t := u.elemOf(env, e.Args[1])
+		bvx := &Term{Op: name + "?" + fmt.Sprint(u.nextBound()), Sort: u.elemSort(t)}
+		body := u.evalSpecBool(env.with(name, Value{K: KNum, T: t, Term: bvx}), e.Args[2])
+		return boolV(Forall([]*Term{bvx}, body))
+	case "disjoint":
+		// disjoint(x, y): the readable extents of x and y do not overlap (true for different element types)
+		ext := func(v Value) (types.Type, *Term, *Term) {
+			switch v.K {
+			case KBuf:
+				d := u.bufData(env.st(), v)
+				return v.Elem, d.Ptr, d.Len
+			case KSlice:
+				return v.Elem, v.Ptr, v.Len
+			}
+			u.errorf("spec: disjoint on unsupported value")
+			return nil, IntLit(0), IntLit(0)
+		}
+		t1, p1, l1 := ext(arg(0))
+		t2, p2, l2 := ext(arg(1))
+		if t1 == nil || t2 == nil || !types.Identical(t1, t2) {
+			return boolV(True)
+		}
+		return boolV(Or(Le(Add(p1, l1), p2), Le(Add(p2, l2), p1)))
 	case "ite":
 		c := u.evalSpecBool(env, e.Args[0])
 		a, b := arg(1), arg(2)
@@ -413,6 +439,19 @@ func (u *Unit) evalSpecCall(env *SpecEnv, e *SExpr) Value {
 		q := boundVar("q?" + fmt.Sprint(u.nextBound()))
 		in := And(Le(Add(base, lo), q), Lt(q, Add(base, hi)))
 		return boolV(Forall([]*Term{q}, Imp(Not(in), Eq(Select(u.heap(env.cur, elem), q), Select(u.heap(env.old, elem), q)))))
+	case "stored":
+		// stored(b, i, v): the element heap of b is exactly the old heap with v stored at position i of b
+		b := arg(0)
+		n := *env
+		n.inOld = true
+		i := u.evalSpec(&n, e.Args[1])
+		v := u.evalSpec(&n, e.Args[2])
+		if b.K != KBuf {
+			u.errorf("spec: stored() on non-buffer")
+			return boolV(True)
+		}
+		d := u.bufData(env.old, b)
+		return boolV(Eq(u.heap(env.cur, b.Elem), Store(u.heap(env.old, b.Elem), Add(d.Ptr, i.Term), v.Term)))
 	case "hdrSame":
 		t := u.elemOf(env, e.Args[0])
 		var cs []*Term
